@@ -176,7 +176,7 @@ def setup_config(
     l_1 = config["simulation"]["tis_set"].get("lambda_minus_one", False)
     config["simulation"]["tis_set"]["lambda_minus_one"] = l_1
 
-    if quantis and not has_ens_engs:
+    if quantis and not has_ens_engs and ens_engs:
         config["simulation"]["ensemble_engines"][0] = ["engine0"]
     accept_all = config["simulation"]["tis_set"].get("accept_all", False)
     config["simulation"]["tis_set"]["accept_all"] = accept_all
@@ -203,6 +203,9 @@ def check_config(config: dict) -> None:
         "lambda_minus_one", False
     )
 
+    if n_ens < 2:
+        raise TOMLConfigError("Define at least 2 interfaces!")
+
     if lambda_minus_one is not False and lambda_minus_one >= intf[0]:
         raise TOMLConfigError(
             "lambda_minus_one interface must be less than the first interface!"
@@ -210,9 +213,6 @@ def check_config(config: dict) -> None:
 
     if quantis and lambda_minus_one:
         raise TOMLConfigError("Cannot run quantis with lambda_minus_one!")
-
-    if n_ens < 2:
-        raise TOMLConfigError("Define at least 2 interfaces!")
 
     if n_workers > n_ens - 1:
         raise TOMLConfigError("Too many workers defined!")
@@ -228,14 +228,24 @@ def check_config(config: dict) -> None:
             f"N_interfaces {n_ens} > N_shooting_moves {n_sh_moves}!"
         )
 
-    if intf_cap and intf_cap > intf[-1]:
+    # NB: an interface_cap of 0.0 is a value, only False means "not set".
+    has_cap = intf_cap is not False
+    if has_cap and intf_cap > intf[-1]:
         raise TOMLConfigError(
             f"Interface_cap {intf_cap} > interface[-1]={intf[-1]}"
         )
-    if intf_cap and intf_cap < intf[0]:
+    if has_cap and intf_cap < intf[0]:
         raise TOMLConfigError(
-            f"Interface_cap {intf_cap} < interface[-2]={intf[-2]}"
+            f"Interface_cap {intf_cap} < interface[0]={intf[0]}"
         )
+    if has_cap:
+        # a wire fencing ensemble samples between its interface and the cap
+        for i, move in enumerate(sh_moves[1:n_ens]):
+            if move == "wf" and intf_cap <= intf[i]:
+                raise TOMLConfigError(
+                    f"Interface_cap {intf_cap} <= interface[{i}]={intf[i]},"
+                    + " no room for the wire fencing ensemble there!"
+                )
 
     # engine checks
     unique_engines = []
